@@ -980,7 +980,11 @@ class World:
         pos_o, pos_d = walk(o), walk(d)
         if len(pos_o) != len(pos_d):
             raise self.viol("C14.1 duplicate-shape", "C14.1:shape", f"duplicate has {len(pos_d)} positions, original {len(pos_o)}")
-        if not (d == o):
+        try:
+            same = (d == o) and (o == d)
+        except Exception as e:  # noqa: BLE001
+            raise self.viol("C14.1 duplicate-not-equal", "C14.1:eq-raised", f"comparing the duplicate with the original raised {type(e).__name__}: {e}") from None
+        if not same:
             raise self.viol("C14.1 duplicate-not-equal", "C14.1:eq", "duplicate() result is not == to the original")
         shared = 0
         for a, b in zip(pos_o, pos_d):
